@@ -722,8 +722,10 @@ fn hash_sweep(exe: &std::path::Path, prop: &str, n: u64, jobs: u64) -> BTreeMap<
         kids.push(c);
     }
     let mut m = BTreeMap::new();
-    for c in kids {
-        let o = c.wait_with_output().unwrap_or_else(|e| die2(&format!("wait: {}", e)));
+    // one reader per child: a child whose pipe is not being read stops when the pipe is full
+    let readers: Vec<_> = kids.into_iter().map(|c| std::thread::spawn(move || c.wait_with_output())).collect();
+    for t in readers {
+        let o = t.join().unwrap_or_else(|_| die2("reader thread")).unwrap_or_else(|e| die2(&format!("wait: {}", e)));
         for l in String::from_utf8_lossy(&o.stdout).lines() {
             if let Some((i, rest)) = l.split_once(' ') {
                 if let Ok(i) = i.parse::<u64>() {
